@@ -19,7 +19,7 @@ namespace sim {
 
 // an element that is itself an array (nested array coverage), wrapped for the same reason as StrElem
 struct NestElem {
-	boost::multi::array<int, 1> a;
+	boost::multi::array<int, 1, zallocator<int>> a;  // zeroed storage: see zallocator
 	friend bool operator==(NestElem const& x, NestElem const& y) { return x.a == y.a; }
 	friend bool operator!=(NestElem const& x, NestElem const& y) { return !(x.a == y.a); }
 };
@@ -29,7 +29,7 @@ template<> struct elem_traits<NestElem> {
 	static constexpr bool tracked = false, throwing_move = false, trivial = false;
 	static auto make(i64 v) -> E {
 		if(v == 0) return E{};
-		return E{boost::multi::array<int, 1>(boost::multi::extensions_t<1>{static_cast<boost::multi::size_t>(1 + (v % 3 + 3) % 3)}, static_cast<int>(v))};
+		return E{boost::multi::array<int, 1, zallocator<int>>(boost::multi::extensions_t<1>{static_cast<boost::multi::size_t>(1 + (v % 3 + 3) % 3)}, static_cast<int>(v))};
 	}
 	static auto make_conv(i64 v) -> conv { return make(v); }
 	static auto read(E const& e, bool& ok) -> i64 {
